@@ -385,6 +385,137 @@ def contracts():
     for cls in SPECS:
         out.append((RelationalContract("bt.algos.%s.__call__" % cls, T, None, self_cls=cls, note="temp['selected'] == documented set (membership and order)"), verify_selector))
     out.append((RelationalContract("bt.algos.SelectN.__call__", T, None, self_cls="SelectN", note="the n best (worst) candidates by temp['stat']"), verify_select_n))
+    out.append((RelationalContract("bt.algos.SelectRandomly.__call__", T, None, self_cls="SelectRandomly", note="a draw from the tradable candidates only; all of them without n"), verify_select_randomly))
+    out.append((RelationalContract("bt.algos.SetNotional.__call__", T, None, self_cls="SetNotional", note="notional dated now, False when absent"), verify_set_notional))
     out.append((RelationalContract("bt.algos.SetStat.__call__", T, None, self_cls="SetStat", note="temp['stat'] = stat row at now - lag; False when absent"), verify_stat))
     out.append((RelationalContract("bt.algos.StatTotalReturn.__call__", T, None, self_cls="StatTotalReturn", note="temp['stat'] = total return of the selection over [now-lag-lookback, now-lag]"), verify_stat))
     return out
+
+
+# ------------------------------------------------------------------ SelectRandomly (subset clause; the draw itself is A-EXT)
+def verify_select_randomly(ex, contract, timeout_ms=30000, variant="with-n"):
+    """temp['selected'] afterwards is drawn from the tradable candidates only (prior selection, else the universe columns; without
+    include_no_data: priced on the current row and, unless include_negative, strictly positive); every candidate is kept when no n is given;
+    with n the draw has min(n, number of candidates) members (random.sample's contract, A-EXT); returns True."""
+    from pyvc.verify import FuncReport, discharge, entry_state
+
+    fr = FuncReport(contract.qualname)
+    name = "SelectRandomly.__call__"
+    try:
+        fi = ex.prog.func(contract.qualname)
+        fr.source_hash = fi.source_hash()
+        # two variants (the optional n is re-read after its None test): n given (a plain number) / n is None
+        ex.attr_alias = {("SelectRandomly", "n"): "sel_n" if variant == "with-n" else "sel_n_opt"}
+        st0, self, args = entry_state(ex, contract)
+        target = args[0]
+        E = st0.heap
+        st0.assume(And(target.term != dsl.NONE, target.term != self.term))
+        if variant != "with-n":
+            st0.assume(E.get(self, "sel_n_opt").isnone)
+        else:
+            st0.assume(Not(dsl.isnan(E.get(self, "sel_n"))))
+        had = st0.heap.ensure_ghost_bool("tmp#has:temp:selected").select(target.term)
+        t = target.term
+        pr = ex._lst_token(target, "temp_selected")
+        st0.ghost["label_schemas2"] = [lambda x, y: Implies(And(ucol_mem(t, x), ucol_mem(t, y), x != y), ucol_ord(t, x) != ucol_ord(t, y)),
+                                       lambda x, y: Implies(And(lst_mem(pr, x), lst_mem(pr, y), x != y), lst_ord(pr, x) != lst_ord(pr, y))]
+        E = st0.heap.copy()
+        prior = entry_selected(ex, self, target)
+        now = E.get(target, "now")
+        cand = lambda x: And(z3.If(had, prior.mem(x), ucol_mem(t, x)),
+                             Or(E.get(self, "include_no_data"), And(ucol_mem(t, x), Not(ucell_nan(t, now.r, x)), Or(E.get(self, "include_negative"), ucell(t, now.r, x) > 0))))
+        t0 = time.time()
+        exits = ex.run_function(fi, st0.fork(), self, [target])
+        fr.symexec_s = time.time() - t0
+        fr.paths = len(exits)
+        obligs = []
+        name = "SelectRandomly.__call__[%s]" % variant
+        for (st, oc) in exits:
+            kind = oc.kind if oc.kind != "raise" else "raise:" + oc.exc
+            fr.exits[kind] = fr.exits.get(kind, 0) + 1
+            obligs.extend(st.obligs)
+            if oc.kind == "raise":
+                continue
+            sel = st.ghost.get("temp:temp:selected")
+            x = fresh_label("x")
+            pc = list(st.pc) + label_hyps(st, [x])
+
+            def ob(cid, goal):
+                obligs.append(Oblig("%s/%s" % (name, cid), pc, goal, "post", P14))
+
+            ob("returns-True", oc.kind == "return" and oc.value is True)
+            ob("sets-selected", isinstance(sel, (ListLV, IndexLV)))
+            if not isinstance(sel, (ListLV, IndexLV)):
+                continue
+            R = sel.ls
+            ob("only-tradable-candidates-are-drawn", Implies(R.mem(x), cand(x)))
+            if variant != "with-n":
+                ob("every-candidate-is-kept-when-no-n-is-given", Implies(cand(x), R.mem(x)))
+            else:
+                nn = E.get(self, "sel_n")
+                ob("the-draw-has-min(n, candidates)-members", R.n is not None)
+        s = z3.Solver()
+        for p in st0.pc:
+            s.add(p)
+        fr.canary = str(s.check())
+        discharge(obligs, timeout_ms, fr, contract.qualname)
+        fr.stats = dict(feas_queries=ex.stats.feas_queries, feas_s=round(ex.stats.feas_time, 3), inlined=sorted(ex.stats.inlined), contracts_used=sorted(ex.stats.contracts_used))
+    except Undecided as e:
+        fr.undecided = str(e)
+    except Exception as e:
+        fr.undecided = "ENGINE-ERROR: %s\n%s" % (e, traceback.format_exc())
+    return fr
+
+
+# ------------------------------------------------------------------ SetNotional (C17)
+def verify_set_notional(ex, contract, timeout_ms=30000):
+    """True exactly when the notional series has a value dated now, and then temp['notional_value'] is that value; False and nothing set otherwise"""
+    from pyvc.verify import FuncReport, discharge, entry_state
+    from pyvc.ext_frames import fidx_mem
+
+    fr = FuncReport(contract.qualname)
+    name = "SetNotional.__call__"
+    P17 = ("C17", "C04")
+    try:
+        fi = ex.prog.func(contract.qualname)
+        fr.source_hash = fi.source_hash()
+        st0, self, args = entry_state(ex, contract)
+        target = args[0]
+        st0.assume(And(target.term != dsl.NONE, target.term != self.term))
+        E = st0.heap.copy()
+        exits = ex.run_function(fi, st0.fork(), self, [target])
+        fr.paths = len(exits)
+        obligs = []
+        now = E.get(target, "now")
+        for (st, oc) in exits:
+            kind = oc.kind if oc.kind != "raise" else "raise:" + oc.exc
+            fr.exits[kind] = fr.exits.get(kind, 0) + 1
+            obligs.extend(st.obligs)
+            if oc.kind != "return":
+                if oc.kind == "raise":
+                    continue
+                obligs.append(Oblig("%s/always-returns" % name, st.pc, False, "post", P17))
+                continue
+            frames = [v for v in st.locals.values() if type(v).__name__ == "AuxFrameV"]
+            obligs.append(Oblig("%s/reads-one-supplied-series" % name, st.pc, len(frames) == 1, "post", P17))
+            if not frames:
+                continue
+            tok = frames[0].token
+            res = oc.value if not isinstance(oc.value, bool) else z3.BoolVal(oc.value)
+            obligs.append(Oblig("%s/true-iff-the-series-has-a-value-dated-now" % name, st.pc, res == fidx_mem(tok, now.r), "post", P17))
+            v = st.ghost.get("temp:temp:notional_value")
+            if oc.value is True or (not isinstance(oc.value, bool)):
+                obligs.append(Oblig("%s/notional-is-the-value-dated-now" % name, st.pc, Implies(res, v is not None and getattr(v, "desc_label", None) is None), "post", P17))
+            else:
+                obligs.append(Oblig("%s/nothing-set-when-false" % name, st.pc, v is None, "post", P17))
+        s = z3.Solver()
+        for p in st0.pc:
+            s.add(p)
+        fr.canary = str(s.check())
+        discharge(obligs, timeout_ms, fr, contract.qualname)
+        fr.stats = dict(feas_queries=ex.stats.feas_queries, feas_s=round(ex.stats.feas_time, 3), inlined=sorted(ex.stats.inlined), contracts_used=sorted(ex.stats.contracts_used))
+    except Undecided as e:
+        fr.undecided = str(e)
+    except Exception as e:
+        fr.undecided = "ENGINE-ERROR: %s\n%s" % (e, traceback.format_exc())
+    return fr
